@@ -218,6 +218,266 @@ fn gen_token(repo: &Path, out: &Path) {
     write_if_changed(&out.join("TokenConsts.lean"), &s);
 }
 
+/// Find a free function or an inherent/trait method named `name` anywhere in the file.
+fn find_fn_block(file: &syn::File, name: &str) -> Option<syn::Block> {
+    use syn::visit::Visit;
+    struct V<'a> { name: &'a str, found: Option<syn::Block> }
+    impl<'ast, 'a> Visit<'ast> for V<'a> {
+        fn visit_item_fn(&mut self, f: &'ast syn::ItemFn) {
+            if f.sig.ident == self.name && self.found.is_none() { self.found = Some((*f.block).clone()); }
+            syn::visit::visit_item_fn(self, f);
+        }
+        fn visit_impl_item_fn(&mut self, f: &'ast syn::ImplItemFn) {
+            if f.sig.ident == self.name && self.found.is_none() { self.found = Some(f.block.clone()); }
+            syn::visit::visit_impl_item_fn(self, f);
+        }
+    }
+    let mut v = V { name, found: None };
+    v.visit_file(file);
+    v.found
+}
+
+/// All `expr[lo..hi]` index expressions with literal bounds inside a block: (lo, hi) with
+/// `None` for an omitted bound.
+fn literal_slices(block: &syn::Block) -> Vec<(Option<i128>, Option<i128>)> {
+    use syn::visit::Visit;
+    struct V { out: Vec<(Option<i128>, Option<i128>)> }
+    impl<'ast> Visit<'ast> for V {
+        fn visit_expr_index(&mut self, e: &'ast syn::ExprIndex) {
+            if let syn::Expr::Range(r) = &*e.index {
+                let env = Consts::new();
+                let lo = r.start.as_ref().map(|x| eval(x, &env));
+                let hi = r.end.as_ref().map(|x| eval(x, &env));
+                let ok = lo.as_ref().map_or(true, |x| x.is_some()) && hi.as_ref().map_or(true, |x| x.is_some());
+                if ok && matches!(r.limits, syn::RangeLimits::HalfOpen(_)) {
+                    self.out.push((lo.flatten(), hi.flatten()));
+                }
+            }
+            syn::visit::visit_expr_index(self, e);
+        }
+    }
+    let mut v = V { out: vec![] };
+    v.visit_block(block);
+    v.out
+}
+
+/// String-literal argument of the first `.method("…")` call in the file.
+fn method_str_arg(file: &syn::File, method: &str) -> Option<String> {
+    use syn::visit::Visit;
+    struct V<'a> { m: &'a str, found: Option<String> }
+    impl<'ast, 'a> Visit<'ast> for V<'a> {
+        fn visit_expr_method_call(&mut self, e: &'ast syn::ExprMethodCall) {
+            if e.method == self.m && self.found.is_none() {
+                if let Some(syn::Expr::Lit(l)) = e.args.first() {
+                    if let syn::Lit::Str(s) = &l.lit { self.found = Some(s.value()); }
+                }
+            }
+            syn::visit::visit_expr_method_call(self, e);
+        }
+    }
+    let mut v = V { m: method, found: None };
+    v.visit_file(file);
+    v.found
+}
+
+fn lean_str(s: &str) -> String {
+    let mut o = String::from("\"");
+    for c in s.chars() {
+        match c {
+            '"' => o.push_str("\\\""),
+            '\\' => o.push_str("\\\\"),
+            '\n' => o.push_str("\\n"),
+            '\r' => o.push_str("\\r"),
+            '\t' => o.push_str("\\t"),
+            c if (c as u32) < 0x20 || c as u32 == 0x7f => o.push_str(&format!("\\x{:02x}", c as u32)),
+            c => o.push(c),
+        }
+    }
+    o.push('"');
+    o
+}
+
+fn gen_disc(repo: &Path, out: &Path) {
+    let f_d = parse_file(&repo.join("discriminator/src/discriminator.rs"));
+    let f_syn = parse_file(&repo.join("discriminator-syn/src/lib.rs"));
+    let f_parser = parse_file(&repo.join("discriminator-syn/src/parser.rs"));
+    let mut env = Consts::new();
+    collect_consts(&f_d.items, "", &mut env);
+    let length = const_val(&env, "ArrayDiscriminator::LENGTH", "discriminator.rs");
+    let rt = find_fn_block(&f_d, "new_with_hash_input").unwrap_or_else(|| fail("new_with_hash_input not found"));
+    let rt_sl = literal_slices(&rt);
+    let ct = find_fn_block(&f_syn, "get_discriminator_bytes").unwrap_or_else(|| fail("get_discriminator_bytes not found"));
+    let ct_sl = literal_slices(&ct);
+    let pick = |v: &Vec<(Option<i128>, Option<i128>)>, what: &str| -> i128 {
+        if v.len() != 1 { fail(&format!("{what}: expected exactly one literal slice of the hash, found {}", v.len())); }
+        match v[0] {
+            (None, Some(hi)) | (Some(0), Some(hi)) => hi,
+            (lo, hi) => fail(&format!("{what}: hash slice is [{lo:?}..{hi:?}], not a prefix; the model only describes a prefix slice")),
+        }
+    };
+    let attr = method_str_arg(&f_parser, "is_ident").unwrap_or_else(|| fail("attribute name (is_ident) not found in parser.rs"));
+    let mut s = String::new();
+    writeln!(s, "-- GENERATED by /verif/harness `extract` from /repo/discriminator/src/discriminator.rs and /repo/discriminator-syn/src/lib.rs — do not edit").unwrap();
+    writeln!(s, "namespace Gen.Disc").unwrap();
+    writeln!(s, "def LENGTH : Nat := {length}").unwrap();
+    writeln!(s, "def RT_SLICE_END : Nat := {}", pick(&rt_sl, "new_with_hash_input")).unwrap();
+    writeln!(s, "def CT_SLICE_END : Nat := {}", pick(&ct_sl, "get_discriminator_bytes")).unwrap();
+    writeln!(s, "def ATTR_NAME : String := {}", lean_str(&attr)).unwrap();
+    writeln!(s, "end Gen.Disc").unwrap();
+    write_if_changed(&out.join("DiscConsts.lean"), &s);
+}
+
+fn const_str(items: &[syn::Item], name: &str, file: &str) -> String {
+    for it in items {
+        if let syn::Item::Const(c) = it {
+            if c.ident == name {
+                if let syn::Expr::Lit(l) = &*c.expr {
+                    if let syn::Lit::Str(s) = &l.lit { return s.value(); }
+                }
+            }
+        }
+    }
+    fail(&format!("string const {name} not found in {file}"))
+}
+
+/// String literal passed to `String::from("…")` inside the named function (the default message).
+fn string_from_literal(block: &syn::Block) -> Vec<String> {
+    use syn::visit::Visit;
+    struct V { out: Vec<String> }
+    impl<'ast> Visit<'ast> for V {
+        fn visit_expr_call(&mut self, e: &'ast syn::ExprCall) {
+            if let syn::Expr::Path(p) = &*e.func {
+                let segs: Vec<String> = p.path.segments.iter().map(|s| s.ident.to_string()).collect();
+                if segs == ["String", "from"] {
+                    if let Some(syn::Expr::Lit(l)) = e.args.first() {
+                        if let syn::Lit::Str(s) = &l.lit { self.out.push(s.value()); }
+                    }
+                }
+            }
+            syn::visit::visit_expr_call(self, e);
+        }
+    }
+    let mut v = V { out: vec![] };
+    v.visit_block(block);
+    v.out
+}
+
+fn gen_err_consts(repo: &Path, out: &Path) {
+    let f = parse_file(&repo.join("program-error-derive/src/macro_impl.rs"));
+    let mut env = Consts::new();
+    collect_consts(&f.items, "", &mut env);
+    let ns = const_str(&f.items, "SPL_ERROR_HASH_NAMESPACE", "macro_impl.rs");
+    let min = const_val(&env, "SPL_ERROR_HASH_MIN_VALUE", "macro_impl.rs");
+    let blk = find_fn_block(&f, "u32_from_hash").unwrap_or_else(|| fail("u32_from_hash not found"));
+    let sl = literal_slices(&blk);
+    if sl.len() != 1 { fail(&format!("u32_from_hash: expected one literal slice of the hash, found {}", sl.len())); }
+    let (lo, hi) = match sl[0] { (Some(lo), Some(hi)) => (lo, hi), (None, Some(hi)) => (0, hi), _ => fail("u32_from_hash: open-ended hash slice") };
+    let ts = find_fn_block(&f, "to_str").unwrap_or_else(|| fail("to_str not found"));
+    let defaults = string_from_literal(&ts);
+    if defaults.len() != 1 { fail(&format!("to_str: expected one String::from(\"…\") default message, found {}", defaults.len())); }
+    let mut s = String::new();
+    writeln!(s, "-- GENERATED by /verif/harness `extract` from /repo/program-error-derive/src/macro_impl.rs — do not edit").unwrap();
+    writeln!(s, "namespace Gen.Err").unwrap();
+    writeln!(s, "def NAMESPACE : String := {}", lean_str(&ns)).unwrap();
+    writeln!(s, "def MIN_VALUE : Nat := {min}").unwrap();
+    writeln!(s, "def HASH_LO : Nat := {lo}").unwrap();
+    writeln!(s, "def HASH_HI : Nat := {hi}").unwrap();
+    writeln!(s, "def DEFAULT_MESSAGE : String := {}", lean_str(&defaults[0])).unwrap();
+    writeln!(s, "end Gen.Err").unwrap();
+    write_if_changed(&out.join("ErrConsts.lean"), &s);
+}
+
+/// One hand-written library error enum: variants (name, explicit discriminant, `#[error]` texts)
+/// and the arms of its hand-written `ToStr::to_str` match.
+fn lib_enum(repo: &Path, rel: &str, name: &str) -> String {
+    let f = parse_file(&repo.join(rel));
+    let env = Consts::new();
+    let en = f.items.iter().find_map(|it| match it { syn::Item::Enum(e) if e.ident == name => Some(e), _ => None })
+        .unwrap_or_else(|| fail(&format!("enum {name} not found in {rel}")));
+    let mut s = String::new();
+    writeln!(s, "def {name} : ProgErr.EnumDesc := {{ name := {}, variants := [", lean_str(name)).unwrap();
+    let mut first = true;
+    for v in &en.variants {
+        if !matches!(v.fields, syn::Fields::Unit) { fail(&format!("{name}::{} is not a unit variant", v.ident)); }
+        let disc = match &v.discriminant {
+            Some((_, e)) => format!("some {}", eval(e, &env).unwrap_or_else(|| fail(&format!("{name}::{}: discriminant not evaluable", v.ident)))),
+            None => "none".to_string(),
+        };
+        let mut attrs = vec![];
+        for a in &v.attrs {
+            if a.path().is_ident("error") {
+                match a.parse_args::<syn::LitStr>() {
+                    Ok(l) => attrs.push(format!("some {}", lean_str(&l.value()))),
+                    Err(_) => attrs.push("none".to_string()),
+                }
+            }
+        }
+        writeln!(s, "  {}{{ name := {}, disc := {}, errAttrs := [{}] }}", if first { "" } else { ", " }, lean_str(&v.ident.to_string()), disc, attrs.join(", ")).unwrap();
+        first = false;
+    }
+    writeln!(s, "] }}").unwrap();
+    // hand-written to_str arms
+    let mut arms: Vec<(String, String)> = vec![];
+    let mut found = false;
+    for it in &f.items {
+        if let syn::Item::Impl(im) = it {
+            let is_tostr = im.trait_.as_ref().map_or(false, |(_, p, _)| p.segments.last().map_or(false, |s| s.ident == "ToStr"));
+            let for_name = matches!(&*im.self_ty, syn::Type::Path(tp) if tp.path.segments.last().map_or(false, |s| s.ident == name));
+            if is_tostr && for_name {
+                for ii in &im.items {
+                    if let syn::ImplItem::Fn(func) = ii {
+                        if func.sig.ident == "to_str" {
+                            found = true;
+                            use syn::visit::Visit;
+                            struct V<'a> { arms: &'a mut Vec<(String, String)> }
+                            impl<'ast, 'a> Visit<'ast> for V<'a> {
+                                fn visit_arm(&mut self, a: &'ast syn::Arm) {
+                                    let pat = match &a.pat {
+                                        syn::Pat::Path(p) => p.path.segments.last().map(|s| s.ident.to_string()),
+                                        syn::Pat::Ident(i) => Some(i.ident.to_string()),
+                                        _ => None,
+                                    };
+                                    fn lit_of(e: &syn::Expr) -> Option<String> {
+                                        match e {
+                                            syn::Expr::Lit(l) => if let syn::Lit::Str(s) = &l.lit { Some(s.value()) } else { None },
+                                            syn::Expr::Block(b) if b.block.stmts.len() == 1 => match &b.block.stmts[0] { syn::Stmt::Expr(e, None) => lit_of(e), _ => None },
+                                            syn::Expr::Paren(p) => lit_of(&p.expr),
+                                            _ => None,
+                                        }
+                                    }
+                                    match (pat, lit_of(&a.body)) {
+                                        (Some(p), Some(l)) => self.arms.push((p, l)),
+                                        _ => fail("to_str: match arm is not `Enum::Variant => \"literal\"`"),
+                                    }
+                                }
+                            }
+                            V { arms: &mut arms }.visit_block(&func.block);
+                        }
+                    }
+                }
+            }
+        }
+    }
+    if !found { fail(&format!("impl ToStr for {name} not found in {rel}")); }
+    writeln!(s, "def {name}_toStrArms : List (String × String) := [").unwrap();
+    for (i, (p, l)) in arms.iter().enumerate() {
+        writeln!(s, "  {}({}, {})", if i == 0 { "" } else { ", " }, lean_str(p), lean_str(l)).unwrap();
+    }
+    writeln!(s, "]").unwrap();
+    s
+}
+
+fn gen_error_enums(repo: &Path, out: &Path) {
+    let mut s = String::new();
+    writeln!(s, "-- GENERATED by /verif/harness `extract` from /repo/{{type-length-value,list-view,tlv-account-resolution}}/src/error.rs — do not edit").unwrap();
+    writeln!(s, "import SplModel.ProgramError\nnamespace Gen.LibErr").unwrap();
+    s.push_str(&lib_enum(repo, "type-length-value/src/error.rs", "TlvError"));
+    s.push_str(&lib_enum(repo, "list-view/src/error.rs", "ListViewError"));
+    s.push_str(&lib_enum(repo, "tlv-account-resolution/src/error.rs", "AccountResolutionError"));
+    writeln!(s, "end Gen.LibErr").unwrap();
+    write_if_changed(&out.join("ErrorEnums.lean"), &s);
+}
+
 fn main() {
     let args: Vec<String> = std::env::args().collect();
     if args.len() != 3 {
@@ -228,4 +488,7 @@ fn main() {
     let out = PathBuf::from(&args[2]);
     std::fs::create_dir_all(&out).unwrap();
     gen_token(&repo, &out);
+    gen_disc(&repo, &out);
+    gen_err_consts(&repo, &out);
+    gen_error_enums(&repo, &out);
 }
